@@ -463,8 +463,15 @@ def nanbox_values(r):
     t = r.randrange(16)
     payload = r.choice([0, 1, 8, 0x10, 0x41414141, 0x602000000010, 0x502000000010, 0x7ffff7a00000, 0x7fffffffe000,
                         0x555555554000, (1 << 47) - 1, r.getrandbits(47)])
-    kind = r.randrange(6)
-    if kind == 0:
+    kind = r.randrange(9)
+    if kind >= 6:
+        # the same tags without the sign bit, quiet (7FF8) or signalling (7FF0): the type test of the
+        # NaN-boxing ignores both bits, so these must be normalised by the loader as well
+        base = [0x0FFF0, 0x0FFE0, 0x0FFF0][kind - 6]
+        u = ((base | t) << 47) | (payload if kind != 8 else (payload & ~7))
+        if (u >> 52) & 0x7FF != 0x7FF or (u & ((1 << 52) - 1)) == 0:
+            u |= (0x7FF << 52) | 1
+    elif kind == 0:
         u = ((0x1FFF0 | t) << 47) | payload
     elif kind == 1:
         u = (0xFFF8 << 48) | r.getrandbits(48)
